@@ -73,6 +73,7 @@ var srcTargets = []srcTarget{
 	{Group: "ValidateClaims", Recv: "Permissions", Name: "Validate", Only: "V2"},
 	{Group: "ValidateClaims", Recv: "User", Name: "Validate", Only: "V2"},
 	{Group: "ValidateClaims", Recv: "UserClaims", Name: "Validate", Only: "V2"},
+	{Group: "ValidateClaims", Recv: "ExternalAuthorization", Name: "Validate", Only: "V2"},
 	{Group: "DidSign", Recv: "StringList", Name: "Contains", Only: "V2"},
 	{Group: "DidSign", Recv: "OperatorClaims", Name: "DidSign", Only: "V2"},
 	{Group: "DidSign", Recv: "AccountClaims", Name: "DidSign", Only: "V2"},
